@@ -707,6 +707,9 @@ func genOpenVPN(t *rapid.T) pcase {
 		if bad == 2 {
 			ts = now - uint32(rapid.IntRange(60, 100000).Draw(t, "age"))
 		}
+		if bad == 3 {
+			ts = now + uint32(rapid.IntRange(60, 100000).Draw(t, "ahead"))
+		}
 		digestFilter := ""
 		if rapid.Bool().Draw(t, "digestFilter") {
 			digestFilter = pick(t, "digestName", "SHA-256", "SHA-1", "MD5", "SHA-512")
@@ -724,6 +727,8 @@ func genOpenVPN(t *rapid.T) pcase {
 			c.want, c.why, c.class = mustNot, "replay packet id of a first packet must be 1", "corrupted"
 		case bad == 2 && !ignoreTS:
 			c.want, c.why, c.class = mustNot, "timestamp far in the past", "corrupted"
+		case bad == 3 && !ignoreTS:
+			c.want, c.why, c.class = mustNot, "timestamp far in the future", "corrupted"
 		case df != nil && df.Size != ad.Size:
 			c.want, c.why = mustNot, "HMAC size differs from the configured auth_digest"
 		case withKey && wrongKey:
